@@ -7,6 +7,8 @@ the LP recorded by the stub is proved to be exactly the split encoding of the fl
 Python objects (ops.lp_equiv).  On witness replays the same obligation is evaluated on the GLPK problem read
 back through optlang.
 """
+import copy
+
 from vlib import env
 from vlib.ops import OPS, SUB, State, base_model, lp_equiv
 from vlib.runner import H
@@ -14,10 +16,13 @@ from vlib.runner import H
 PID = "C01"
 
 
-def history(E, k, alphabet, obligations, contexts=True, sym_coef=True):
+def history(E, k, alphabet, obligations, contexts=True, sym_coef=True, with_ref=False):
     env.for_path(E)
     S = State()
     m = base_model(E, sym_coef=sym_coef)
+    if with_ref:
+        from vlib.refmodel import Ref
+        S.ref = Ref.from_model(m, {"R1": ("and", "g1", "g2"), "R2": ("or", "g1", "g3")})
     obligations(E, m, S, "[built]")
     names = list(alphabet) + (["enter", "exit"] if contexts else [])
     depth = []
@@ -25,19 +30,24 @@ def history(E, k, alphabet, obligations, contexts=True, sym_coef=True):
         name = E.pick("op%d" % step, names)
         if name == "enter":
             m.__enter__()
-            depth.append((set(S.user_vars), set(S.user_cons)))
+            depth.append((set(S.user_vars), set(S.user_cons), copy.deepcopy(getattr(S, "ref", None))))
             S.log.append(("enter", {}, None))
         elif name == "exit":
             if not depth:
                 return
             m.__exit__(None, None, None)
-            S.user_vars, S.user_cons = depth.pop()
+            S.user_vars, S.user_cons, oldref = depth.pop()
+            if oldref is not None:
+                oldref.valid = oldref.valid and S.ref.valid
+                S.ref = oldref
             S.log.append(("exit", {}, None))
         else:
             new = OPS[name][0](E, m, S)
             if new is not None:
                 m = new
                 depth = []
+                if getattr(S, "ref", None) is not None:
+                    S.ref.valid = False
         E.note(ops=[l[0] + ("!" + l[2] if l[2] else "") for l in S.log])
         obligations(E, m, S, "")
     return m, S
